@@ -251,6 +251,9 @@ the scheduler is arbitrary; `b`, `m`, the data and the schedule are unbounded. -
 section chain
 open KV.Chain
 
+/-- the stage functions of the worked example / the harness: pass-through stage `i` applies `xform (i+1)` -/
+def defaultStageFn : StageFn := ⟨fun i _ v => xform (i + 1) v⟩
+
 /-- **Chain ring.**  In every reachable state of every chain:
 1. *order*: stage `i+1` has received exactly a prefix of what stage `i` produced, in production order, the rest
    is in the queue between them; queue 0 holds the blocks of `Chain::Start` followed by the recycler's output,
@@ -269,7 +272,7 @@ theorem chain_ring {b m : Nat} {data : List Nat} {c : Chain} (hb : 0 < b) (hm : 
     (hr : Chain.Reach (Chain.init b m data) c) :
     ((∀ i, i < m → (c.st i).out = (c.st (i + 1)).inp ++ c.q (i + 1))
       ∧ List.replicate (b - fillRem c) (Item.val 0) ++ (c.st m).out = (c.st 0).inp ++ c.drained ++ c.q 0)
-    ∧ (∀ i, i ≤ m → (c.st i).out ++ pend (c.st i) = outFrom m data i 0 (c.st i).inp
+    ∧ (∀ i, i ≤ m → (c.st i).out ++ pend (c.st i) = @outFrom defaultStageFn m data i [] (c.st i).inp
         ∧ (1 ≤ i → (c.st i).out ++ pend (c.st i) = (c.st i).inp.map (passOf m i)))
     ∧ (∀ i, i ≤ m → Item.poison ∉ (c.st i).out.dropLast ∧ ((c.st i).pc = .finished ↔ Item.poison ∈ (c.st i).out))
     ∧ (∀ j, j ≤ m → (c.q j).length ≤ b)
@@ -280,11 +283,12 @@ theorem chain_ring {b m : Nat} {data : List Nat} {c : Chain} (hb : 0 < b) (hm : 
             (∀ i, i ≤ m → (c.st i).pc = .finished) ∧ Item.poison ∈ c.drained
             ∧ (c.st 0).out = data.map Item.val ++ [Item.poison]
             ∧ ∀ i, i < m → c.q (i + 1) = [] ∧ (c.st (i + 1)).inp = (c.st i).out)) := by
-  have h := rinv_reach hb hm hr
+  letI := defaultStageFn
+  have h : RInv b m data c := rinv_reach hb hm hr
   refine ⟨⟨h.q, h.q0⟩, ?_, ?_, ?_, chain_no_deadlock_inv h, fun tid c' hs => chain_measure_step h hs, ?_, ?_⟩
   · intro i hi
     refine ⟨(h.sok i hi).r, fun h1 => ?_⟩
-    rw [(h.sok i hi).r, outFrom_eq_map (by omega)]
+    rw [(h.sok i hi).r, outFrom_eq_map (by omega) (fun _ _ _ => rfl)]
   · intro i hi
     exact ⟨(h.sok i hi).last, (h.sok i hi).fin⟩
   · intro j hj
@@ -309,6 +313,58 @@ example : ((([0, 0, 1, 1, 1, 1, 1, 2, 2, 2, 2, 2, 3, 3, 3, 1, 1, 2, 2, 3, 3, 1, 
       (fun (o : Option Chain) t => o.bind (·.step t)) (some (Chain.init 2 2 [11, 12, 13]))).map
       (fun c => (c.allDone, c.seen 1, (c.st 0).out, c.drained))) =
     some (true, [11, 12, 13], [.val 11, .val 12, .val 13, .poison], [.val 132, .poison]) := by decide
+
+/-- **Stateful stream transducers as stages** (for C07's `h_stages`).  Let every pass-through stage `i`
+(`1 ≤ i < m`) run an arbitrary deterministic, possibly STATEFUL, stream transducer `T.step i : state × block →
+state × block` (its loop body keeps the state; a block is its content, an abstract `Nat`).  For every number of
+blocks `b ≥ 1`, every `m ≥ 1`, every data and **every schedule**:
+(a) at every moment, the blocks stage `i` has produced (with the one in its hand) carry exactly the output of its
+    transducer, started in `T.init i`, on the blocks it has received so far — block boundaries of the schedule,
+    interleavings and the number of recycled blocks are not observable;
+(b) once `Chain::Wait` has returned, the output of stage `i` is the source data pushed through the transducers of
+    stages `1..i` in order (`T.pipeline data i`), followed by exactly one poison, and stage `i+1` has received
+    exactly that.
+All other clauses of `chain_ring` (order, poison once and last, capacity, deadlock freedom, termination) hold for
+these chains as well (`rinv_reach`, `chain_no_deadlock_inv`, `chain_measure_step` are proved for arbitrary stage
+functions).  In the `Link` protocol a stage emits exactly one block per block received, so there is no extra
+output at poison ("final flush"): state that must leave a stage has to ride on its blocks. -/
+theorem chain_stream_transducer {τ : Type} (T : Transducers τ) {b m : Nat} {data : List Nat} {c : Chain}
+    (hb : 0 < b) (hm : 1 ≤ m) (hr : Chain.Reach (Chain.initT b m data T.toStageFn.tr) c) :
+    (∀ i, 1 ≤ i → i < m →
+        valsOf ((c.st i).out ++ pend (c.st i)) = T.run i (T.init i) (valsOf (c.st i).inp))
+    ∧ (c.main = .finished → ∀ i, i < m →
+        (c.st i).out = (T.pipeline data i).map Item.val ++ [Item.poison] ∧ (c.st (i + 1)).inp = (c.st i).out) := by
+  letI := T.toStageFn
+  have h : RInv b m data c := rinv_reach hb hm hr
+  refine ⟨fun i h1 h2 => ?_, fun hfin => ?_⟩
+  · rw [(h.sok i (by omega)).r]
+    exact valsOf_outFrom T (by omega) (by omega) [] _
+  · have hmain := h.mainok
+    unfold MainOK at hmain
+    rw [hfin] at hmain
+    have hall := hmain.1
+    intro i
+    induction i with
+    | zero =>
+      intro hi
+      exact ⟨h.source_out (hall 0 (by omega)), (h.handed_over hi (hall 1 (by omega))).2⟩
+    | succ i ih =>
+      intro hi
+      obtain ⟨hout, hinp⟩ := ih (by omega)
+      refine ⟨?_, (h.handed_over hi (hall (i + 2) (by omega))).2⟩
+      have hr' := (h.sok (i + 1) (by omega)).r
+      have hp : pend (c.st (i + 1)) = [] := by simp [pend, hall (i + 1) (by omega)]
+      rw [hp, List.append_nil, hinp, hout] at hr'
+      rw [hr', outFrom_complete T (by omega) (by omega)]
+      rfl
+
+/-- non-vacuity: a running-sum transducer (stateful) between source and recycler, 2 blocks, data 1,2,3: the stage's
+output is the prefix sums whatever the schedule; here the lowest-thread-first schedule -/
+example : ((([0, 0, 1, 1, 1, 1, 1, 2, 2, 2, 2, 2, 3, 3, 3, 1, 1, 2, 2, 3, 3, 1, 1, 0, 2, 2, 0, 3, 3, 3, 3, 0, 0, 0]).foldl
+      (fun (o : Option Chain) t => o.bind (·.step t))
+      (some (Chain.initT 2 2 [1, 2, 3]
+        (Transducers.toStageFn ⟨fun _ => 0, fun _ s v => (s + v, s + v)⟩).tr))).map
+      (fun c => (c.allDone, (c.st 1).out))) = some (true, [.val 1, .val 3, .val 6, .poison]) := by decide
 
 end chain
 
